@@ -547,6 +547,7 @@ def handleNames (ver ents : String) (dmg : Option (UInt64 × Nat) := none) : Str
 /-- one case line in, one answer line out (see `Base/Proto.lean`) -/
 def handle (line : String) : String :=
   match fields line with
+  | "idx" :: _ => Physis.Driver.C01.handle line
   | "sheets" :: pl :: dirs :: calls :: records =>
     match handleSheets pl dirs calls records with
     | some r => r
